@@ -13,11 +13,13 @@ pub struct Game<'a> {
     pub dead: bool, // a panic was logged; the trace is rejected there, stop driving
     pub acts: usize,
     pub resets: usize,
+    pub c17: bool,
+    acts_seen: usize,
 }
 
 impl<'a> Game<'a> {
     pub fn new(tr: &'a mut Trace) -> Self {
-        Game { tr, stack: Vec::new(), pending_pop: 0, dead: false, acts: 0, resets: 0 }
+        Game { tr, stack: Vec::new(), pending_pop: 0, dead: false, acts: 0, resets: 0, c17: std::env::var("VERIF_C17").is_ok(), acts_seen: 0 }
     }
 
     pub fn top(&self) -> &GameState {
@@ -63,6 +65,15 @@ impl<'a> Game<'a> {
         let parent = self.stack.last().unwrap();
         match apply(parent, a) {
             Ok(child) => {
+                // C17 on reached states: after every capture, and on a sample of other transitions
+                self.acts_seen += 1;
+                let captured = guarded(|| {
+                    parent.piece_board().all_pieces.count_ones() != child.piece_board().all_pieces.count_ones()
+                })
+                .unwrap_or(false);
+                if self.c17 && child.is_play_phase() && (captured || self.acts_seen % 40 == 0) {
+                    WANT_C17.with(|w| w.set(true));
+                }
                 if !self.tr.act(a, &child, pop, push) {
                     self.dead = true;
                 }
@@ -100,6 +111,19 @@ impl<'a> Game<'a> {
             self.ascend();
         }
         ok
+    }
+}
+
+/// starting move numbers: mostly small, sometimes just below a power of two or very large (a parsed
+/// position may carry any move number; C03 / C19 speak about games of any length)
+pub fn start_move_number(rng: &mut Rng) -> usize {
+    match rng.below(12) {
+        0 => 120 + rng.below(16),
+        1 => 245 + rng.below(14),
+        2 => 65526 + rng.below(14),
+        3 => 1_000_000 + rng.below(1000),
+        4 => 2_147_480_000 + rng.below(3000),
+        _ => 1 + rng.below(60),
     }
 }
 
